@@ -27,7 +27,8 @@ def queries(tier):
         Q("register_%d%d_n%d%d" % (o1, o2, n1, n2), "C06/register.c", harness_defines={"K": 2, "OPS": "{%d,%d}" % (o1, o2), "NAMEIDX": "{%d,%d}" % (n1, n2)}, unwind_default=20,
           unwind={"strlen": 12, "strcmp": 12, "strncmp": 12, "harness": 4, "memcpy": 30, "memset": 30, "memmove": 30},
           bounds="two registrations of kinds (%d,%d) [0 basic (size 0..40 symbolic), 1 generic, 2 interface, 3 metatype] with names (%d,%d) from [solve, beta_, abc], each followed by id and name lookups" % (o1, o2, n1, n2),
-          outside="other kind/name sequences; capacity exhaustion of a range", timeout=400, regions=["C06_NAME_CROSS_KIND"], **common)
-        for (o1, o2, n1, n2) in ([(2, 2, 0, 0), (2, 2, 0, 1), (3, 3, 1, 1), (3, 3, 0, 1), (0, 1, 0, 0), (2, 3, 0, 2)] if tier == "quick" else
+          outside="other kind/name sequences; capacity exhaustion of a range", timeout=400, regions=["C06_NAME_CROSS_KIND"],
+          no_main=(o1 >= 2 and o2 >= 2 and o1 != o2 and n1 == n2 and n1 != 2), **common)
+        for (o1, o2, n1, n2) in ([(2, 2, 0, 0), (2, 2, 0, 1), (3, 3, 1, 1), (3, 3, 0, 1), (0, 1, 0, 0), (2, 3, 0, 2), (3, 2, 0, 0)] if tier == "quick" else
                                  [(a, b, c, d) for a in range(4) for b in range(4) for c in range(3) for d in range(3) if (a >= 2 or c == 0) and (b >= 2 or d == 0)])
     ]
